@@ -1,30 +1,35 @@
 #!/usr/bin/env python3
-"""Write MANIFEST.json from the table below (kept in one place so it always validates)."""
-import json, os
+"""Write MANIFEST.json from tools/claims/Cxx.json (one file per claimed property) so it always validates."""
+import json, os, glob
 VERIF = os.path.dirname(os.path.dirname(os.path.abspath(__file__)))
 props = [json.loads(l) for l in open(os.path.join(VERIF, 'properties.jsonl'))]
-
-# id -> (category, technique, text, note, design_ref)
-CLAIMS = {
- 'C04': ('proof', 'Lean 4 theorems over a limb-level model (all limb counts, all operands) + differential correspondence of the model against the real crate in two build profiles',
-         'Every add/sub/neg primitive and limb chain (adc, sbb, mac, Uint adc/sbb, wrapping/checked/saturating add and sub, carrying_neg, wrapping_neg_if) is modelled as the code computes it and proved equal to the mathematical result with the exact carry/borrow/overflow report, for every limb count and every operand and carry-in. The model is tied to /repo on each run by executing the same operation lines on the crate and on the compiled model.',
-         'Trusted: Lean kernel; axioms propext, Classical.choice, Quot.sound and the bv_decide axioms of CB/Lemmas/WordBits.lean; model faithfulness is checked only on the executed lines; only 64-bit limbs modelled.', '§6 C04'),
-}
-
+claims = {}
+for f in sorted(glob.glob(os.path.join(VERIF, 'tools', 'claims', 'C*.json'))):
+    c = json.load(open(f))
+    claims[c['property_id']] = c
 checks = []
 for p in props:
     pid = p['id']
-    if pid in CLAIMS:
-        cat, tech, text, note, ref = CLAIMS[pid]
+    if pid in claims:
+        c = claims[pid]
         checks.append(dict(property_id=pid, quick_cmd=f'./check {pid} --tier quick', thorough_cmd=f'./check {pid} --tier thorough',
                            evidence_file=f'/verif/evidence/{pid}.json', replay_cmd_template=f'./check {pid} --replay {{path}}',
-                           engine='lean4-model+harness', level_claimed=dict(category=cat, text=text, design_ref=ref),
-                           level_note=note, technique=tech))
-na = [dict(property_id=p['id'], reason='not claimed yet: model, theorems and correspondence for this property are still being built (see DESIGN.md §10 order of work)')
-      for p in props if p['id'] not in CLAIMS]
+                           engine='lean4-model+harness',
+                           level_claimed=dict(category=c.get('category', 'proof'), text=c['text'], design_ref=c.get('design_ref', f'§6 {pid}')),
+                           level_note=c['note'], technique=c['technique']))
+NA = {}
+nap = os.path.join(VERIF, 'tools', 'claims', 'not_applicable.json')
+if os.path.exists(nap):
+    NA = json.load(open(nap))
+na = [dict(property_id=p['id'], reason=NA.get(p['id'], 'not claimed yet: model, theorems and correspondence for this property are still being built (DESIGN.md §10 order of work)'))
+      for p in props if p['id'] not in claims]
+hooks_commits = []
+hp = os.path.join(VERIF, 'tools', 'claims', 'hook_commits.json')
+if os.path.exists(hp):
+    hooks_commits = json.load(open(hp))
 m = dict(version=1, setup_cmd='./setup.sh',
          hooks=dict(guard='crypto_bigint_verif', enable='harness/.cargo/config.toml passes --cfg crypto_bigint_verif to rustc for every harness build',
-                    baseline_off_cmd='cd /repo && cargo test --workspace --no-fail-fast --offline', source_commits=[], add_only=True),
+                    baseline_off_cmd='cd /repo && cargo test --workspace --no-fail-fast --offline', source_commits=hooks_commits, add_only=True),
          engines=[dict(name='lean4-model+harness', path='/verif/tools/runner.py', serves_properties=[c['property_id'] for c in checks],
                        kind_free_text='Lean 4 theorems about a hand-written limb-level model (lean/CB), tied to the code by a differential correspondence run (Rust harness with path dependency on /repo vs compiled Lean driver)')],
          checks=checks, not_applicable=na,
